@@ -291,12 +291,20 @@ func runC08(cs *vrt.Case) {
 			os.Mkdir(filepath.Join(dir, n), 0o755)
 			lib := fmt.Sprintf("// -*- go -*-\n\npackage %s\n\nconst Bias = %d\n\nvar Table = []int32{%d, %d, %d}\n\nfunc Tag() int32 {\n\treturn intern(%sTag)\n}\n\nfunc Mix(x int32) int32 {\n\treturn x*Bias + Table[%d] + intern(%sMix)\n}\n",
 				n, r.Range(2, 99), r.Range(1, 999), r.Range(1, 999), r.Range(1, 999), n, r.Intn(3), n)
+			// a folded operation on a literal wider than a machine word inside
+			// the library (its syntax tree is cached by a reused Compiler)
+			wop := vrt.Pick(r, []string{">>", "<<", "+", "-", "*", "&", "|", "^"})
+			wb := fmt.Sprint(r.Range(1, 40))
+			if wop != ">>" && wop != "<<" {
+				wb = "uint100(0x" + r.Big(r.Range(65, 90)).Text(16) + ")"
+			}
+			lib += fmt.Sprintf("\nfunc Wide(x uint100) uint100 {\n\tk := uint100(0x%s) %s %s\n\treturn x ^ k\n}\n", r.Big(r.Range(70, 100)).Text(16), wop, wb)
 			os.WriteFile(filepath.Join(dir, n, n+".mpcl"), []byte(lib), 0o644)
 			fmt.Fprintf(&imp, "\t%q\n", n)
-			fmt.Fprintf(&body, "\tsum = %s.Mix(sum)*b + %s.Tag()\n", n, n)
+			fmt.Fprintf(&body, "\tsum = %s.Mix(sum)*b + %s.Tag()\n\twv = %s.Wide(wv)\n", n, n, n)
 		}
 		p = c08Program{name: "user-libraries", pkgPath: dir,
-			src: "package main\n\nimport (\n" + imp.String() + ")\n\nfunc main(a, b int32) int32 {\n\tsum := a\n" + body.String() + "\treturn sum + intern(mainTag)\n}\n"}
+			src: "package main\n\nimport (\n" + imp.String() + ")\n\nfunc main(a, b int32, c uint100) (int32, uint100) {\n\tsum := a\n\twv := c\n" + body.String() + "\treturn sum + intern(mainTag), wv\n}\n"}
 		variant = r.Intn(4)
 		cs.Count("programs_with_user_library_packages", 1)
 	case cs.Idx%8 == 3:
